@@ -9,6 +9,9 @@
 (*   reset  rows cols                        new scenario, fresh terminal   *)
 (*   op     op [ps | g w | sgr] cls o        o = observation (0-based)      *)
 (*   panic  op cls                           the emulator panicked          *)
+(* ps = numeric parameters (-1 = omitted; HugeParam for a value written     *)
+(* with seven digits or more, whatever its size); w = the measured width of *)
+(* the printed cluster, a logged fact that may exceed 2 (VTRef GlyphWidths). *)
 (* o = [r, c, lc, pen, top, bot, alt, sp, sa, h, ws, rows] where pen =      *)
 (* <<fg,bg,ul,us,at>>, sp/sa = <<r,c,fg,bg,ul,us,at>> (saved cursor of the  *)
 (* normal / alternate screen), h = number of grid rows, ws = the distinct   *)
